@@ -47,9 +47,26 @@ pub fn guarded<T>(f: impl FnOnce() -> T) -> Result<T, String> {
     }
 }
 
-/// Install a panic hook that stays silent (monitors report panics themselves).
+thread_local! {
+    static LAST_PANIC_AT: std::cell::RefCell<String> = const { std::cell::RefCell::new(String::new()) };
+}
+
+/// Install a panic hook that stays silent (monitors report panics themselves) but remembers, per
+/// thread, the source location of the most recent panic.
 pub fn quiet_panics() {
-    std::panic::set_hook(Box::new(|_| {}));
+    std::panic::set_hook(Box::new(|info| {
+        let at = info.location().map(|l| format!("{}:{}", l.file(), l.line())).unwrap_or_default();
+        let _ = LAST_PANIC_AT.try_with(|c| {
+            if let Ok(mut c) = c.try_borrow_mut() {
+                *c = at;
+            }
+        });
+    }));
+}
+
+/// "file:line" of the most recent panic on this thread ("" if none).
+pub fn last_panic_at() -> String {
+    LAST_PANIC_AT.with(|c| c.borrow().clone())
 }
 
 pub mod crash;
